@@ -104,6 +104,10 @@ def run(ck):
 
     # ---- clause 3: lifecycle set on failure (shared with C14.2) -----------------------------------------
     C14.lifecycle_set_follows(ck, "3")
+    # a failing disable()/update() leaves nothing parked in the deferred-action cell (shared with C09.4)
+    from props import common as _common
+
+    _common.dispatch_infra(ck, "3")
 
     # ---- clause 4: Generic records poller/token only after success -----------------------------------------
     for q, callee in (("<Generic as EventSource>::register", "register"), ("<Generic as EventSource>::reregister", "reregister")):
